@@ -75,7 +75,7 @@ PROPS = {
         "explanation": "theorems encode_eq_layout, refDecode_agrees, refDecode_encode + real to_packet vs the field-table layout and real try_from_packet vs the reference decoder",
     },
     "C12": {
-        "groups": {"ev_cross": Q(240000, 2000000)},
+        "groups": {"ev_xenc": Q(120000, 1000000), "ev_cross": Q(240000, 2000000)},
         "rule": "valid encodings of all kinds, with mutated bytes / event codes / flags / random payloads, shown to all 16 real decoders; distinct by input text; non-trivial = payload of at least 2 bytes",
         "explanation": "theorems decode_unique, cross_reject + acceptance mask of the 16 real decoders compared with the model's; oracle on the implementation's answer: at most one bit set",
     },
@@ -128,7 +128,7 @@ def nontrivial(group, inp, obs):
         return bool(m) and int(m.group(1)) > 8
     if g == "builder":
         return t[2].count(",") >= 1
-    if g in ("ev_enc", "ev_rt"):
+    if g in ("ev_enc", "ev_rt", "ev_xenc"):
         return not t[1].startswith("k5")
     if g in ("ev_dec",):
         return len(t[2].split(":")[-1]) >= 4
